@@ -284,6 +284,47 @@ func (p *c02) RunCase(ctx *runner.Ctx) runner.CaseResult {
 		}
 		x.fp(nt, "%s|%s|%s", adapter, fpKind, sizeClass(len(got.Items)))
 		x.set("result_size_classes", sizeClass(len(got.Items)))
+		// "everything after this key": the same base-table query with an ExclusiveStartKey the caller built himself -
+		// a key that names NO stored item, just above one of the returned items - returns exactly the items of the
+		// full result (judged above) that are positioned after that key in the direction of the read
+		if op.Kind == adapt.OpQuery && op.Index == "" && op.Limit == 0 && len(got.Items) >= 2 && r.Intn(3) == 0 {
+			attr, kind := t.SortAttr("")
+			pivot := got.Items[r.Intn(len(got.Items))]
+			if pv, ok := pivot[attr]; ok && attr != "" && pv.K == kind {
+				start := val.Item{t.Spec.Hash: pivot[t.Spec.Hash]}
+				switch kind {
+				case val.KN:
+					if d, err := val.ParseDec(pv.Str); err == nil {
+						start[attr] = val.Num(d.Add(val.MustDec("0.5")).Plain())
+					}
+				default:
+					start[attr] = val.V{K: kind, Str: pv.Str + "!"}
+				}
+				if _, has := start[attr]; has {
+					if kc, kok := t.KeyCanon(start); kok {
+						if _, stored := t.Items[kc]; !stored {
+							want := []val.Item{}
+							for _, it := range got.Items {
+								c := model.CompareSort(it, start, attr, kind)
+								if (!op.Rev && c > 0) || (op.Rev && c < 0) {
+									want = append(want, it)
+								}
+							}
+							q := op
+							q.Start = start
+							g2 := cl.Do(q)
+							x.r.Evals++
+							x.r.Counters["queries_from_a_key_that_is_not_stored"]++
+							if g2.Class != adapt.ClsOK || adapt.ItemsCanon(g2.Items) != adapt.ItemsCanon(want) {
+								x.viol("query-from-unstored-start-key", fmt.Sprintf("rev=%v", op.Rev), fmt.Sprintf("[%s] %s with ExclusiveStartKey %s (not a stored item): class %s items %s; the items of the full result after that key are %s", adapter, op.String(), start.Canon(), g2.Class, adapt.ItemsCanon(g2.Items), adapt.ItemsCanon(want)),
+									map[string]interface{}{"adapter": adapter, "spec": spec, "history": hist, "query": q, "full_result": got.Items, "got": g2.Items})
+								return false
+							}
+						}
+					}
+				}
+			}
+		}
 		return true
 	}
 	for _, src := range c02Sources() {
